@@ -83,7 +83,7 @@ Section V.
     assert (Hc : covers (v_bs v) (vdi_lookup v) (vdi_emit v) (v_size v)).
     { intros i Hi Hlt. destruct (Hcov i Hi Hlt) as [e He]. exists e. split.
       - unfold vdi_lookup. now rewrite He.
-      - intros io n. eexists. reflexivity. }
+      - intros io n _ _ _. eexists. reflexivity. }
     destruct (walk_ok (v_bs v) (vdi_lookup v) (vdi_emit v) Hbs (vdi_fuel len) off
                 (Z.min len (v_size v - off)) (v_size v) Hc ltac:(lia) ltac:(lia)
                 ltac:(unfold vdi_fuel; lia)) as [p Hp].
